@@ -367,13 +367,17 @@ def gmres(A: LinearOperator, B: torch.Tensor,
     need_hermit = False
     A_fcn, AT_fcn, B2, col_swapped = _setup_linear_problem(A, B, E, M, batchdims,
                                                            posdef, need_hermit)
+    if col_swapped:
+        # with E, the columns are moved to a leading batch dimension
+        batchdims = [ncols, *batchdims]
+        ncols = 1
 
     # get the stopping matrix
     B_norm = B2.norm(dim=-2, keepdim=True)  # (*BB, 1, nc)
     stop_matrix = torch.max(rtol * B_norm, atol * torch.ones_like(B_norm))  # (*BB, 1, nc)
 
     # prepare the initial guess (it's just all zeros)
-    x0shape = (ncols, *batchdims, nr, 1) if col_swapped else (*batchdims, nr, ncols)
+    x0shape = (*batchdims, nr, ncols)
     x0 = torch.zeros(x0shape, dtype=A.dtype, device=A.device)
 
     r = B2 - A_fcn(x0)  # torch.Size([*batch_dims, nr, ncols])
@@ -430,6 +434,8 @@ def gmres(A: LinearOperator, B: torch.Tensor,
         warnings.warn(ConvergenceWarning(msg))
 
     res = best_res
+    if col_swapped:
+        res = res.transpose(0, -1).squeeze(0)  # (*, nr, ncols)
     return res
 
 
